@@ -21,6 +21,8 @@ pub fn nonces() -> Vec<u64> {
     for k in 0..64 {
         v.push(1u64 << k);
     }
+    // a few fixed "random-looking" 64-bit values (all bytes distinct and non-zero)
+    v.extend([0x9e37_79b9_7f4a_7c15u64, 0xd6e8_feb8_6659_fd93, 0x243f_6a88_85a3_08d3, 0xfedc_ba98_7654_3210]);
     v.sort_unstable();
     v.dedup();
     v
